@@ -132,15 +132,25 @@ func (it Item) Coq() string {
 
 // Parse runs the real parser over one chunk of child output.
 func Parse(b []byte) []ansi.Sequence {
+	out, timerEsc := parseOnce(b)
+	for n := 0; n < hx.TimerEscRetries && timerEsc; n++ {
+		out, timerEsc = parseOnce(b) // scheduling artefact, see hx.IsTimerEsc
+	}
+	return out
+}
+
+func parseOnce(b []byte) (out []ansi.Sequence, timerEsc bool) {
 	p := ansi.NewParser(bytes.NewReader(b))
-	var out []ansi.Sequence
 	for s := range p.Next() {
 		if _, ok := s.(ansi.EOF); ok {
 			continue
 		}
+		if hx.IsTimerEsc(s) {
+			timerEsc = true
+		}
 		out = append(out, s)
 	}
-	return out
+	return out, timerEsc
 }
 
 // ---------------------------------------------------------------- Coq rendering of state
